@@ -214,6 +214,8 @@ def init_values(particles):
             pa.cs[:] = 1.0
         if 'rho0' in pa.properties and len(pa.rho0) == n:
             pa.rho0[:] = pa.rho
+        if 'h0' in pa.properties and len(pa.h0) == n:
+            pa.h0[:] = pa.h
         if 'V' in pa.properties:
             pa.V[:] = pa.rho / pa.m
         if 'n' in pa.properties and len(pa.n) == n:
